@@ -148,6 +148,16 @@ class SymNP:
             return _build_object(vals)
         return _np.fromiter(vals, dtype, *a, **k)
 
+    def broadcast_to(self, array, shape, subok=False):
+        if isinstance(array, _np.ndarray) and array.dtype == object and has_sym(array):
+            return _np.broadcast_to(array.view(SymArray), shape, subok=True)
+        return _np.broadcast_to(array, shape, subok=subok)
+
+    def ndim(self, x):
+        if is_symbolic(x):
+            return 0
+        return _np.ndim(x)
+
     def atleast_1d(self, x):
         if is_symbolic(x):
             return _build_object([x])
